@@ -112,7 +112,12 @@ func runCase(in input, emit func(string)) (res childResult) {
 		r := coqfmt.NewRng(in.Seed)
 		setup = genSetup(r, in.Focus, in.Mode)
 		p := policyFor(in.Focus, in.Mode)
-		body = func(w *world) { w.walk(r, p, in.N) }
+		body = func(w *world) {
+			if setup.Delay && w.hasMon && r.Chance(1, 3) {
+				w.enableRound() // EnableVerification before any update
+			}
+			w.walk(r, p, in.N)
+		}
 		if in.Mode == "overflow2" {
 			// an overflow, then the callbacks catch up, then registrations and installs
 			p1, p2 := policyFor(in.Focus, "overflow"), p
